@@ -51,9 +51,13 @@ TraceUnexplained ==
 (* the caller called solve() again (event ["retry", "-"], logged by the harness between the two calls) *)
 IsRetry == IsEvent /\ Ev[1] = "retry"
 TraceRetry == /\ IsRetry /\ Retry /\ l' = l + 1 /\ UNCHANGED <<tid, why>>
-TraceRetryNotUnsolved == /\ IsRetry /\ phase # "Unsolved" /\ l' = l + 1
-                         /\ UNCHANGED <<phase, n, hist, kstar, nestedFault, tid, why>>     \* solve() again on a solved object: nothing to specify here
-TNext == TraceSolveK \/ TraceNested \/ TraceAfterGiveUp \/ TraceUnexplained \/ TraceRetry \/ TraceRetryNotUnsolved
+(* solve() again on an object whose first search ended otherwise (solved, or finished by the guessed-weights shortcut,
+   which the specification does not model as a phase change): the search simply starts over *)
+TraceRetryNotUnsolved == /\ IsRetry /\ phase \notin {"Unsolved", "Rejected"} /\ l' = l + 1
+                         /\ phase' = "Searching" /\ n' = 1 /\ hist' = <<>>
+                         /\ UNCHANGED <<kstar, nestedFault, tid, why>>
+TraceRetryRejected == /\ IsRetry /\ phase = "Rejected" /\ l' = l + 1 /\ UNCHANGED <<phase, n, hist, kstar, nestedFault, tid, why>>
+TNext == TraceSolveK \/ TraceNested \/ TraceAfterGiveUp \/ TraceUnexplained \/ TraceRetry \/ TraceRetryNotUnsolved \/ TraceRetryRejected
 TSpec == TInit /\ [][TNext]_tvars
 
 (***************************************************************************)
